@@ -17,5 +17,21 @@ def calc_harnesses():
                              functions=["sf_command", "psf_calc_signal_max", "psf_calc_max_all_channels"],
                              bounds="<= 4 frames, staging buffer 48 bytes (6 doubles: the scan loop crosses staging boundaries), every sample value, arbitrary I_open state in READ/RDWR mode; sf_read_double/sf_seek = their proved contracts"))
     return out
+def peak_harnesses():
+    out = []
+    for tag, cfile, init, fmt, fw, ft in (("float32", "float32.c", "float32_init", "(SF_FORMAT_WAV|SF_FORMAT_FLOAT)", 4, "float"),
+                                           ("double64", "double64.c", "double64_init", "(SF_FORMAT_WAV|SF_FORMAT_DOUBLE)", 8, "double")):
+        for t, isf in (("short", 0), ("int", 0), ("float", 1), ("double", 1)):
+            for ch in (1, 2):
+                d = {"CODEC_FILE": '"%s"' % cfile, "CODEC_INIT": init, "FMT": fmt, "FW": fw, "FT": ft, "T": t, "TN": t, "NDT": t, "IS_FLOAT_T": isf, "CH": ch,
+                     "MF_CAP": 3 * ch * fw + 4, "MF_MAXIO": 3 * ch * 8, "MF_NFILES": 2, "LIBSNDFILE_VERIF_BUFFER_LEN": 16}
+                out.append(H("peak.%s.%s.ch%d" % (tag, t, ch), "C18/peak.c", link=["common"], stubs=["psf_log_printf", "psf_memset"], defines=d,
+                             unwind=10, unwindset=["psf_fwrite.0:%d" % (3 * ch * 8 + 1), "psf_memset.0:65"] + ["main.%d:%d" % (i, 3 * ch * fw + 2) for i in range(12)],
+                             checks="mem", solver="cadical", include_env=("log_stub", "memfile", "memset_model", "libm_model"), timeout=400,
+                             tiers=("quick", "thorough") if (t in ("int", "float") or (tag == "double64" and t == "double")) else ("thorough",),
+                             functions=[init, "%s_peak_update" % tag, "host_write_%s2%s" % (t[0], ft[0])],
+                             bounds="<= 3 frames, %d channel(s), staging buffer 16 bytes (the write crosses staging boundaries), arbitrary prior peak state, split point symbolic, all sample values" % ch))
+    return out
 HARNESSES += calc_harnesses()
+HARNESSES += peak_harnesses()
 META = {"assumptions": ["contracts of sf_read_double / sf_seek as proved by C05/C06 wrapper harnesses"], "outside": ["streams longer than 4 frames", "NaN samples"]}
